@@ -68,7 +68,7 @@ package runtime
 //@   note group records (wire types 3/4): this unbounded contract gives safety, progress and termination; the record length of group records is checked by the bounded template contracts Skip#group-* below
 
 //@ func Skip#group-flat
-//@   property C15, C14, C03, C01
+//@   property C15, C14, C01
 //@   mode bv
 //@   bounded group records, template SG(a) EG(a'): one-byte tags, any field numbers (Skip matches groups by depth only)
 //@   loop 1: unroll 3
@@ -79,7 +79,7 @@ package runtime
 //@   ensures[group-length] err == nil && n == 2
 
 //@ func Skip#group-nested
-//@   property C15, C14, C03, C01
+//@   property C15, C14, C01
 //@   mode bv
 //@   bounded group records, template SG(a) SG(b) EG(b) EG(a) with independent one-byte field numbers a, b
 //@   loop 1: unroll 5
@@ -91,7 +91,7 @@ package runtime
 //@   ensures[group-length] err == nil && n == 4
 
 //@ func Skip#group-siblings
-//@   property C15, C14, C03, C01
+//@   property C15, C14, C01
 //@   mode bv
 //@   bounded group records, template SG(a) SG(b) EG(b) SG(c) EG(c) EG(a), one-byte tags
 //@   loop 1: unroll 7
@@ -103,7 +103,7 @@ package runtime
 //@   ensures[group-length] err == nil && n == 6
 
 //@ func Skip#group-with-fields
-//@   property C15, C14, C03, C01
+//@   property C15, C14, C01
 //@   mode bv
 //@   bounded group records, template SG(a) varint(c, 1 byte) fixed32(d) bytes(e, L<=127 payload bytes) EG(a), one-byte tags
 //@   loop 1: unroll 6
